@@ -280,8 +280,8 @@ func (h *harness) stageCorpus() {
 		res := h.replayObject(f, e, false)
 		h.rep.Count("corpus:" + name + ":" + res)
 		h.rep.Case("corpus|"+name+"|"+res, true)
-		if strings.HasPrefix(name, "dep-") {
-			continue
+		if strings.HasPrefix(name, "dep-") || strings.HasPrefix(name, "open-") {
+			continue // known, unrepaired findings (dependency code / open fx-core finding): replayed for determinism only
 		}
 		if res != "rejected" {
 			h.rep.Fail(lib.Failure{Kind: "monitor", Sig: "C20:corpus:" + name + ":" + res,
